@@ -45,8 +45,10 @@ func c02Fold(out []outEnvelope, id string) (state interface{}, n int) {
 
 // c02Write performs one data change followed by the invalidation of everything
 // that depends on the data.
+var c02Ops = []int{0, 1, 2, 3, 4, 5}
+
 func c02Write(w *kWorld, name string) {
-	switch nondet.Choice(name+".op", 6) {
+	switch c02Ops[nondet.Choice(name+".op", len(c02Ops))] {
 	case 0:
 		w.version = nondet.Int64(name + ".version")
 	case 1:
@@ -138,7 +140,10 @@ func VerifC02OneAll() { c02Run(c02Queries, []int{0, 2}, 1) }
 func VerifC02TwoSubs() { c02Run(c02Queries[:2], []int{1}, 1) }
 
 // thorough: one subscription, two data changes
-func VerifC02TwoWrites() { c02Run(c02Queries[2:], []int{0, 2}, 2) }
+func VerifC02TwoWrites() {
+	c02Ops = []int{0, 2, 3}
+	c02Run(c02Queries[2:], []int{0}, 2)
+}
 
 // VerifC02Cached: a cached (expensive) field under a list element that leaves
 // the result, changes, and comes back as the same source object.
